@@ -1,3 +1,4 @@
+import copy
 import ctypes
 import math
 import os
@@ -724,7 +725,21 @@ class CompiledLogicNet(torch.nn.Module):
 
         return code
 
+    # what _parse_model records about the model; forward sizes and interprets its buffers from these
+    _TABLES = ("conv_layers", "pooling_layers", "linear_layers", "linear_in_dims", "layer_order", "num_classes", "input_shape")
+
     def get_c_code(self) -> str:
+        """Generate the complete C code for the network (the model as it is now)."""
+        return self._translate()[0]
+
+    def _translate(self):
+        """C code and layer tables of the model as it is now, made on a shallow copy: the tables on this object describe the
+        library that is installed (forward uses them with lib_fn) and change only when compile() installs a new library."""
+        work = copy.copy(self)
+        code = work._generate_c_code()
+        return code, {name: getattr(work, name) for name in self._TABLES}
+
+    def _generate_c_code(self) -> str:
         """Generate the complete C code for the network."""
         if self.model is None:
             # a handle returned by load() has no model: the generated logic_net would be empty
@@ -981,7 +996,7 @@ void apply_logic_net(bool const *inp, {BITS_TO_DTYPE[32]} *out, size_t len) {{
             raise ValueError("This CompiledLogicNet was loaded from a library and has no model to compile.")
         with tempfile.NamedTemporaryFile(suffix=".so") as lib_file:
             with tempfile.NamedTemporaryFile(mode="w", suffix=".c") as c_file:
-                code = self.get_c_code()
+                code, tables = self._translate()
 
                 if verbose and len(code.split("\n")) <= 200:
                     print("\n" + code + "\n")
@@ -1018,6 +1033,9 @@ void apply_logic_net(bool const *inp, {BITS_TO_DTYPE[32]} *out, size_t len) {{
                     print(f"lib_file copied from {lib_file.name} to {save_lib_path}")
 
             lib = ctypes.cdll.LoadLibrary(lib_file.name)
+            # the new library and the tables that describe it are installed together, and only now that everything succeeded
+            for name, value in tables.items():
+                setattr(self, name, value)
             self._setup_library_function(lib)
 
     def _setup_library_function(self, lib):
